@@ -30,8 +30,9 @@ from .harness import call_real, same
 LEVEL = "exploration"
 RULE = ("systematic sweep over apply x lamb x shuffle x {mixup,cutmix,mixed} x driver {KDMixCollator, KDComposeCollator, "
         "MAEFinetuneMixCollator, DataLoader(collate_fn)} followed by random cases: B in 1..9 (flip mostly even), C in 1..4, "
-        "H,W in 1..24 (1-pixel, non-square), one-hot (2..10 classes, unique or repeated), label-smoothed, binary "
-        "int/float/soft-scalar labels or no label item, dataset modes = random permutations of x [class] [index aux meta "
+        "H,W in 1..24 (1-pixel, non-square), one-hot (2..10 classes, unique or repeated; float32 / float64 / float16 / "
+        "int64 as produced by F.one_hot), label-smoothed (float32 / float64), binary int/float/soft-scalar labels "
+        "(python numbers, float32 / float64 / int64 tensors) or no label item, dataset modes = random permutations of x [class] [index aux meta "
         "name ctx.src], return_ctx on/off, alphas 0.1..8, collator seeds; a case is distinct by its full spec and trivial if B == 1")
 ASSUMPTIONS = [
     "mixup_p + cutmix_p == 1 only (the constructor refuses other sums with NotImplementedError; 'apply' is therefore always true and not judged)",
@@ -40,13 +41,14 @@ ASSUMPTIONS = [
     "flip with an odd batch size is an enumerated refusal class (the collator's own assert); if the call returns, the oracle is applied with p(i)=B-1-i",
     "ctx['lambda'] may hold one weight for the whole batch or one per sample; ctx['apply'] / ctx['use_cutmix'] are not judged",
     "float tolerances: image 16*2^-24*max|x| per pixel (float32 convex combination), labels 2e-6, compared weights 2e-6 plus the propagated decode error",
-    "dtype of the mixed label is not judged (int binary labels become float)",
+    "dtype of the mixed label is not judged (int / float64 / float16 labels become float32 on the current code); labels are compared "
+    "numerically in float64 against the float32 value of the input label; float16 is only driven with exact 0/1 one-hot rows",
     "statistical clause (random shuffling really moves samples): only batches with B>=5, pure mixup, alpha>=1, 6-bit ids count; a correct "
     "implementation leaves such a batch unmoved with probability < 0.02, the clause fires only if >= 8 such batches were all unmoved (< 2.6e-14)",
 ]
 MONITORS = ["batches_checked", "samples_checked", "cutmix_box_decoded", "mixup_weight_decoded", "label_weight_decoded",
             "image_label_weight_compared", "ctx_lambda_compared", "partner_identified_from_output", "passthrough_items_compared",
-            "layout_checked", "binary_labels_checked", "random_bijection_checked"]
+            "layout_checked", "binary_labels_checked", "random_bijection_checked", "non_float32_label_batches_checked"]
 
 APPLY = ["batch", "sample"]
 LAMB = ["batch", "sample"]
@@ -69,13 +71,18 @@ def _gen_label(rng, B, want_class):
             classes = rng.sample(range(K), B)  # label == id: the label names the partner
         else:
             classes = [rng.randrange(K) for _ in range(B)]
-        return {"kind": "onehot", "K": K, "classes": classes}
+        # float32 is what OneHotWrapper gives; int64 is torch.nn.functional.one_hot's own dtype; the others are converted copies
+        return {"kind": "onehot", "K": K, "classes": classes, "dtype": rng.choice(["float32", "float32", "int64", "int64", "float64", "float16"])}
     if r < 0.62:
         K = rng.randint(2, 10)
-        return {"kind": "smooth", "K": K, "classes": [rng.randrange(K) for _ in range(B)], "smooth": rng.choice([0.1, 0.3])}
+        return {"kind": "smooth", "K": K, "classes": [rng.randrange(K) for _ in range(B)], "smooth": rng.choice([0.1, 0.3]),
+                "dtype": rng.choice(["float32", "float64"])}
     kind = rng.choice(["bin_int", "bin_int", "bin_float", "bin_tensor"])
     pool = [0, 1] if kind != "bin_tensor" or rng.random() < 0.5 else [0, 1, 0.25, 0.5]
-    return {"kind": kind, "values": [rng.choice(pool) for _ in range(B)]}
+    lab = {"kind": kind, "values": [rng.choice(pool) for _ in range(B)]}
+    if kind == "bin_tensor":
+        lab["dtype"] = rng.choice(["float32", "float64"] + (["int64"] if len(pool) == 2 else []))
+    return lab
 
 
 def _gen_dim(rng):
@@ -217,6 +224,7 @@ def run_case(run, spec):
     shape_class = "1px" if H * W == 1 else "line" if min(H, W) == 1 else "square" if H == W else "rect"
     run.cover(spec["driver"], cfg["apply_mode"], cfg["lamb_mode"], shuffle_mode, spec["split"])
     run.cover("B", bclass, shuffle_mode, spec["label"]["kind"], shape_class)
+    run.cover("label-dtype", spec["label"]["kind"], spec["label"].get("dtype", "native"), cfg["lamb_mode"], spec["split"])
     run.cover("mode", len(items), "class" in items, rc, spec["driver"])
 
     # ---- layout
@@ -271,6 +279,8 @@ def run_case(run, spec):
             run.violation("label-shape:binary" if binary else "label-shape", f"label item is {_shape(Yt)}, default collation has shape {tuple(Yref.shape)}")
             return
         Y = _np(Yt)
+        if not binary and spec["label"].get("dtype", "float32") != "float32":
+            run.count("non_float32_label_batches_checked")
         if binary:
             run.count("binary_labels_checked")
             if not ((Y >= -LABEL_TOL) & (Y <= 1 + LABEL_TOL)).all():
